@@ -264,10 +264,20 @@ def isinstance_chain_violations(fi: FuncInfo):
     """within one if/elif chain (or a sequence of early-returning ifs) testing the same name, a test that bool satisfies
     (int, int|float) must come after a bool test"""
     tests: dict[str, list[tuple[int, str, ast.AST]]] = {}
+    # order of evaluation in the text of the function as the rules read it (statements of a helper read in place keep the
+    # line numbers of the helper, so line numbers do not order them): depth-first position
+    pos: dict[int, int] = {}
+
+    def _number(x: ast.AST) -> None:
+        pos[id(x)] = len(pos)
+        for ch in ast.iter_child_nodes(x):
+            _number(ch)
+
+    _number(fi.node)
     for n in walk_no_nested(fi.node):
         if isinstance(n, ast.Call) and isinstance(n.func, ast.Name) and n.func.id == "isinstance" and len(n.args) == 2:
             subj = ast.unparse(n.args[0])
-            tests.setdefault(subj, []).append((n.lineno, ast.unparse(n.args[1]), n))
+            tests.setdefault(subj, []).append((pos.get(id(n), n.lineno), ast.unparse(n.args[1]), n))
     # a non-literal type argument (e.g. a name looked up in a type map) counts as numeric when the function's
     # dict literals mention int/float
     def numeric_dict(d: ast.AST) -> bool:
@@ -331,9 +341,9 @@ def isinstance_chain_violations(fi: FuncInfo):
     for n in walk_no_nested(fi.node):
         if isinstance(n, ast.Call) and isinstance(n.func, ast.Name) and n.func.id in ("float", "int") and len(n.args) == 1 and isinstance(n.args[0], ast.Name) and n.args[0].id in params:
             subj = n.args[0].id
-            if any(isinstance(t[2], ast.Call) and t[0] <= n.lineno and any(p.strip() in ("int", "float") for p in t[1].strip("()").replace("|", ",").split(",")) for t in tests.get(subj, [])):
+            if any(isinstance(t[2], ast.Call) and t[0] <= pos.get(id(n), n.lineno) and any(p.strip() in ("int", "float") for p in t[1].strip("()").replace("|", ",").split(",")) for t in tests.get(subj, [])):
                 continue  # already reported through the isinstance test that guards the conversion
-            seen_bool = any("bool" in [p.strip() for p in t[1].strip("()").replace("|", ",").split(",")] and t[0] < n.lineno for t in tests.get(subj, []))
+            seen_bool = any("bool" in [p.strip() for p in t[1].strip("()").replace("|", ",").split(",")] and t[0] < pos.get(id(n), n.lineno) for t in tests.get(subj, []))
             yield subj, n, seen_bool
 
 
@@ -360,6 +370,78 @@ def check_bool_before_int(run: Run, rule: str, scope: list[tuple[str, str]]) -> 
             run.instance(rule, m.loc(node), f"{qual}: `{norm(node)}` is preceded by a bool test on `{subj}`", ok=seen_bool)
             if not seen_bool:
                 run.violation(rule, m, qual, node, f"`{subj}` is tested for int/float without a preceding bool test: True/False (instances of int) would be treated as numbers")
+
+
+# ----------------------------------------------------------------------------- number spelling
+_EXACT_SPECS = {"", "r", ".17g", ".17e", "!r"}
+
+
+def check_number_spelling(run: Run, rule: str) -> None:
+    """str()/repr() of a float is the shortest text that reads back as the same double; any precision-limited spelling is not"""
+    run.rule(rule, "numbers are spelled by str()/repr() only: in the emitter no format(x, <spec>), f-string field with a format spec, '%'-formatting, str.format or round() is applied on the way from a value to its text (15 significant digits or 6 decimals do not reproduce a double: 0.30000000000000004 -> 0.3, 1.5e-07 -> 0.0); emit_value's number branch returns str(value)/repr(value)", 2)
+    em = run.project.mod("core.emitter")
+    n = 0
+    for q, fi in em.functions.items():
+        if q in ("_apply_format_options",):
+            continue
+        for c in walk_no_nested(fi.node):
+            bad = None
+            if isinstance(c, ast.Call) and isinstance(c.func, ast.Name) and c.func.id == "format" and len(c.args) == 2:
+                spec = run.project.try_fold(em, c.args[1])
+                if not (isinstance(spec, str) and spec in _EXACT_SPECS):
+                    bad = f"format(..., {ast.unparse(c.args[1])})"
+            elif isinstance(c, ast.Call) and isinstance(c.func, ast.Name) and c.func.id == "round":
+                bad = "round(...)"
+            elif isinstance(c, ast.FormattedValue) and c.format_spec is not None:
+                spec = "".join(v.value for v in c.format_spec.values if isinstance(v, ast.Constant)) if all(isinstance(v, ast.Constant) for v in c.format_spec.values) else None  # type: ignore[attr-defined]
+                if spec is None or spec not in _EXACT_SPECS:
+                    bad = f"f-string field {{{ast.unparse(c.value)}:{spec if spec is not None else '<computed>'}}}"
+            elif isinstance(c, ast.BinOp) and isinstance(c.op, ast.Mod) and ((isinstance(c.left, ast.Constant) and isinstance(c.left.value, str)) or isinstance(c.left, ast.JoinedStr)):
+                bad = "'%'-formatting"
+            elif isinstance(c, ast.Call) and isinstance(c.func, ast.Attribute) and c.func.attr == "format" and isinstance(c.func.value, ast.Constant) and isinstance(c.func.value.value, str) and ":" in c.func.value.value:
+                bad = "str.format with a format spec"
+            elif isinstance(c, ast.Call) and isinstance(c.func, ast.Attribute) and c.func.attr in ("__format__", "hex", "as_integer_ratio"):
+                bad = f".{c.func.attr}()"
+            if bad:
+                n += 1
+                run.instance(rule, em.loc(c), f"{q}: {bad}", ok=False)
+                run.violation(rule, em, q, c, f"{q} spells a value with {bad}: a precision- or width-limited spelling does not read back as the same number (and two different numbers get the same text, so a seal or a diff no longer sees the change)")
+    # the number branch of emit_value
+    fi = em.func("emit_value")
+    from ..cfg import CFG, atomic_conditions
+    cfg = CFG(fi.node)
+    pvalue = fi.node.args.args[0].arg  # type: ignore[attr-defined]
+    found = 0
+    for rn in [x for x in cfg.nodes if isinstance(x.ast, ast.Return)]:
+        conds = atomic_conditions(cfg, rn.id)
+        numeric = any(val and isinstance(t, ast.Call) and isinstance(t.func, ast.Name) and t.func.id == "isinstance" and len(t.args) == 2 and isinstance(t.args[0], ast.Name) and t.args[0].id == pvalue and {x.id for x in ast.walk(t.args[1]) if isinstance(x, ast.Name)} & {"int", "float"} and not {x.id for x in ast.walk(t.args[1]) if isinstance(x, ast.Name)} - {"int", "float"} for t, val in conds)
+        if not numeric:
+            continue
+        found += 1
+        v = rn.ast.value  # type: ignore[union-attr]
+        # the returned text: str(value) / repr(value), or a local every definition of which is that (possibly with '.0' appended)
+        def exact(e: ast.AST | None, depth: int = 0) -> bool:
+            if isinstance(e, ast.Call) and isinstance(e.func, ast.Name) and e.func.id in ("str", "repr") and len(e.args) == 1 and isinstance(e.args[0], ast.Name) and e.args[0].id == pvalue:
+                return True
+            if isinstance(e, ast.Call) and isinstance(e.func, ast.Name) and e.func.id == "format" and len(e.args) == 2 and isinstance(e.args[0], ast.Name) and e.args[0].id == pvalue:
+                return run.project.try_fold(em, e.args[1]) in _EXACT_SPECS
+            if isinstance(e, ast.Name) and depth < 3:
+                defs = [a.value for a in walk_no_nested(fi.node) if isinstance(a, ast.Assign) and any(isinstance(t, ast.Name) and t.id == e.id for t in a.targets)]
+                augs = [a for a in walk_no_nested(fi.node) if isinstance(a, ast.AugAssign) and isinstance(a.target, ast.Name) and a.target.id == e.id]
+                return bool(defs) and all(exact(d, depth + 1) for d in defs) and all(isinstance(a.op, ast.Add) and isinstance(a.value, ast.Constant) and a.value.value in (".0", "0") for a in augs)
+            if isinstance(e, ast.BinOp) and isinstance(e.op, ast.Add) and isinstance(e.right, ast.Constant) and e.right.value in (".0", "0"):
+                return exact(e.left, depth)
+            return False
+
+        ok = exact(v)
+        n += 1
+        run.instance(rule, em.loc(rn.ast), f"emit_value: a number is returned as `{norm(v) if v is not None else None}`", ok=ok)
+        if not ok:
+            run.violation(rule, em, "emit_value", rn.ast, f"the number branch of emit_value returns `{norm(v) if v is not None else None}`, which is not str(value) / repr(value) (the shortest spelling that reads back as the same int or double)")
+    if not found:
+        raise AnalysisError("emit_value: no return under isinstance(value, int | float) found; how numbers are spelled is not decided")
+    ctl = ast.parse("format(v, '.15g')").body[0].value  # type: ignore[attr-defined]
+    run.control(rule, "format(v, '.15g') is recognised as a precision-limited spelling", isinstance(ctl, ast.Call) and ctl.args[1].value not in _EXACT_SPECS)  # type: ignore[attr-defined]
 
 
 # ----------------------------------------------------------------------------- memoisation
@@ -515,6 +597,7 @@ def check(run: Run) -> None:
 
     c05.check_prelex_text(run, "R04.7")
     check_untyped_caches(run, "R04.8")
+    check_number_spelling(run, "R04.10")
     check_bool_before_int(run, "R04.4", [("core.emitter", "emit_value"), ("core.constraints", "TypeConstraint.evaluate"), ("core.constraints", "RangeConstraint.evaluate"), ("core.validator", "Validator._validate_type")])
     check_number_lexemes(run, "R04.5", lm)
     run.rule("R04.9", "only str values are ever wrapped in double quotes by the emitter (a quoted 5 / true / null is read back as a string): every quoting site is control-dependent on isinstance(<value>, str) (shared with C15 R15.6, C18)", 4)
